@@ -78,10 +78,10 @@ func evJanitor(base string, backend string, firstMs, lastMs int) string {
 		time.Sleep(100 * time.Microsecond)
 	}
 	cfg.Cache.CleanupInterval.Overwrite(duration.Duration(time.Duration(lastMs) * time.Millisecond))
-	time.Sleep(20 * time.Millisecond) // the second listener goroutine reaches its send
+	time.Sleep(150 * time.Millisecond) // the second listener goroutine reaches its send (generous: a loaded machine)
 	close(release)
 	// which interval does the task follow now? count cycles over a window
-	time.Sleep(30 * time.Millisecond) // both notifications drained
+	time.Sleep(150 * time.Millisecond) // both notifications drained (generous: a loaded machine)
 	start := metrics.Global.Cache.CleanupRuns.Get()
 	window := 12 * time.Duration(min(firstMs, lastMs)) * time.Millisecond
 	time.Sleep(window)
